@@ -1,4 +1,5 @@
 import RreModel.C06.Lemmas
+import RreModel.C06.Exact
 /-
 C06 — property theorems (only).  "RETE engine fires a rule exactly for live facts that satisfy it."
 Histories are arbitrary lists of insert / update / retract / fire_all / reset (any length, any handles, any data),
@@ -92,25 +93,175 @@ theorem fire_all_bounded (e : Engine) : e.fireAll.2.length ≤ 1000 := by
   have := fireLoop_length C07.incBound e []
   simpa [Engine.fireAll, C07.incBound] using this
 
-/-- **quiescent_fire_all_exact — full statement (NOT proved; evaluated by the oracle `exactOk` on every applicable run).**
-For rule sets whose actions leave working memory unchanged and whose rules are all no-loop, in a state reached by a
-history after whose last `fire_all` every live fact was inserted or updated and no rule fired since the last reset,
-`fire_all` fires every rule satisfied by a live fact of its type exactly once, and fires no rule that no live fact
-satisfies. -/
-def quiescent_fire_all_exact_full : Prop :=
-  ∀ (rules : List Rule) (ops touch : List Op),
-    quietRules rules = true → (rules.map (·.name)).Nodup →
-    (∀ o ∈ touch, ∃ h d, o = .update h d ∨ ∃ ty, o = .insert ty d) →
-    let e0 := (({ rules := rules } : Engine).run (ops ++ [.fire, .reset])).run touch
-    (∀ f ∈ e0.wm.getAllFacts, ∃ o ∈ touch, o = .update f.handle f.data ∨ o = .insert f.ty f.data) →
-    e0.ag.acts.length + rules.length * (rules.length * e0.wm.getAllFacts.length) ≤ 1000 →
+/-- the exactness clause for the loop of `fire_all` run with an arbitrary iteration bound `B` (the code: `B = 1000`), under the
+hypothesis that the pending activations plus the rules fit into the bound — see `quiescent_fire_all_exact` for the reading -/
+theorem quiescent_fire_all_exact_bound (B : Nat) (rules : List Rule) (ops touch : List Op)
+    (hq : quietRules rules = true) (hn : (rules.map (·.name)).Nodup)
+    (hwf : ∀ o ∈ ops ++ touch, o.WF) (ht : ∀ o ∈ touch, o ≠ .fire) :
+    let e1 := ({ rules := rules } : Engine).run ops
+    let e0 := e1.run touch
+    (∀ f ∈ e0.wm.getAllFacts, e1.wm.nextId ≤ f.handle ∨ ∃ d, Op.update f.handle d ∈ touch) →
+    e0.ag.acts.length + rules.length ≤ B →
+    let res := fireLoop B e0 []
+    let fired := res.2.map (·.rule)
+    fired.Nodup ∧
+    (∀ n ∈ fired, n ∉ e0.ag.fired) ∧
+    (∀ r ∈ rules, r.name ∉ e0.ag.fired →
+      (∃ f ∈ e0.wm.getAllFacts, f.ty = r.ty ∧ r.node.eval f.ty f.data = true) → r.name ∈ fired) ∧
+    (∀ x ∈ res.2, ∃ r ∈ rules, ∃ f ∈ e0.wm.getAllFacts, x.rule = r.name ∧ x.handle = f.handle ∧ x.data = f.data ∧
+      r.node.eval f.ty f.data = true) ∧
+    res.1.wm = e0.wm ∧ res.1.ag.acts = [] := by
+  intro e1 e0 hfresh hbound res fired
+  have hQ := quiet_of hq
+  have hinv1 : Inv rules e1 :=
+    inv_run hQ ops _ (fun o ho => hwf o (List.mem_append.2 (Or.inl ho))) (inv_init rules)
+  have hinv0 : Inv rules e0 := inv_run hQ touch _ (fun o ho => hwf o (List.mem_append.2 (Or.inr ho))) hinv1
+  have hc : Compl (fun h => False ∨ e1.wm.nextId ≤ h ∨ ∃ d, Op.update h d ∈ touch) e0 :=
+    compl_run hQ touch (fun _ => False) e1 (fun o ho => ⟨ht o ho, hwf o (List.mem_append.2 (Or.inr ho))⟩) hinv1
+      (fun _ _ _ _ hS => absurd hS id)
+  obtain ⟨new, h1, P⟩ := fireLoop_exact rules e0.wm hQ hn hinv0.wm hinv0.data B e0 [] rfl hinv0.rules_eq hinv0.ag (by
+    have h2 := List.countP_le_length (p := stale e0.wm rules) (l := e0.ag.acts)
+    have h3 : unfired rules e0.ag.fired ≤ rules.length := List.length_filter_le _ _
+    omega)
+  have hnew : res.2 = new := by simpa using h1
+  have hfired : fired = new.map (·.rule) := by simp only [fired, hnew]
+  refine ⟨by rw [hfired]; exact P.nodup, ?_, ?_, by rw [hnew]; exact P.validf, P.wm, P.drained⟩
+  · intro n hn'
+    rw [hfired] at hn'
+    obtain ⟨x, hx, rfl⟩ := List.mem_map.1 hn'
+    exact P.fresh x hx
+  · intro r hr hnf ⟨f, hf, hty, hev⟩
+    have hact := hc r (by rw [hinv0.rules_eq]; exact hr) f hf (Or.inr (hfresh f hf)) hty hev
+    rcases (P.fired_iff r.name).1 (P.cover r hr f hf hev hact) with h | h
+    · exact absurd h hnf
+    · rw [hfired]; exact h
+
+/-- **quiescent_fire_all_exact.**  "When actions leave working memory unchanged, fire_all fires every no-loop rule that some live
+fact satisfies exactly once and fires no other rule."
+
+Rule set: any list of single-type rules that are all no-loop and whose actions neither assign nor retract (`quietRules`), with
+distinct names.  History: rules are loaded first; then `ops` — ANY calls, of any number (insert / update / retract / reset and
+also earlier `fire_all` calls, even ones that ran into the iteration bound); then `touch` — any calls except `fire_all`
+(insert / update / retract / reset) — such that every fact that is live at the end was inserted or updated during `touch`
+(scope of the clause, DESIGN §6 C06: activations are created by propagation only).  Then, provided the number of pending
+activations plus the number of rules is at most `max_iterations = 1000`, the `fire_all` that follows
+  * fires no rule twice (`Nodup`) and no rule that already fired since the last `reset` (`e0.ag.fired`, the `fired_rules` set),
+  * fires EVERY rule that has not fired since the last `reset` and whose node is true on the current contents of some live fact
+    of the rule's type,
+  * fires NO OTHER rule: each firing's matched fact is live and the rule's node is true on its current contents, which are the
+    contents the action sees,
+  * leaves working memory unchanged and the agenda empty.
+Contents written by insert/update are maps (one binding per field, as `TypedFacts` is a `HashMap`): `Op.WF`. -/
+theorem quiescent_fire_all_exact (rules : List Rule) (ops touch : List Op)
+    (hq : quietRules rules = true) (hn : (rules.map (·.name)).Nodup)
+    (hwf : ∀ o ∈ ops ++ touch, o.WF) (ht : ∀ o ∈ touch, o ≠ .fire) :
+    let e1 := ({ rules := rules } : Engine).run ops
+    let e0 := e1.run touch
+    (∀ f ∈ e0.wm.getAllFacts, e1.wm.nextId ≤ f.handle ∨ ∃ d, Op.update f.handle d ∈ touch) →
+    e0.ag.acts.length + rules.length ≤ 1000 →
     let fired := e0.fireAll.2.map (·.rule)
     fired.Nodup ∧
-    ∀ r ∈ rules, (r.name ∈ fired ↔ ∃ f ∈ e0.wm.getAllFacts, r.node.eval f.ty f.data = true ∧
-      (f.ty = r.ty ∨ ∃ r' ∈ rules, ∃ f' ∈ e0.wm.getAllFacts, f'.ty = r'.ty ∧ r'.node.eval f'.ty f'.data = true))
+    (∀ n ∈ fired, n ∉ e0.ag.fired) ∧
+    (∀ r ∈ rules, r.name ∉ e0.ag.fired →
+      (∃ f ∈ e0.wm.getAllFacts, f.ty = r.ty ∧ r.node.eval f.ty f.data = true) → r.name ∈ fired) ∧
+    (∀ x ∈ e0.fireAll.2, ∃ r ∈ rules, ∃ f ∈ e0.wm.getAllFacts, x.rule = r.name ∧ x.handle = f.handle ∧ x.data = f.data ∧
+      r.node.eval f.ty f.data = true) ∧
+    e0.fireAll.1.wm = e0.wm ∧ e0.fireAll.1.ag.acts = [] :=
+  quiescent_fire_all_exact_bound 1000 rules ops touch hq hn hwf ht
+
+/-- **quiescent_fire_all_exact, as an equivalence** for the histories in which the last `reset` (or the creation of the engine)
+comes after the last `fire_all`, and for rule sets whose nodes are false on facts of a foreign type (`hproper`; it can fail only
+for a node that is true when its field is missing, e.g. `!(T.x > 5)`: after some rule has fired, the re-propagation of
+`fire_all` evaluates every rule on the facts of every type, so such a rule can also fire for a fact of another type — a firing
+the main theorem allows under "no other" but does not demand under "every"):
+the rules `fire_all` fires are exactly — and each exactly once — the rules whose node is true on the current contents of some
+live fact. -/
+theorem quiescent_fire_all_exact_iff (rules : List Rule) (ops touch : List Op)
+    (hq : quietRules rules = true) (hn : (rules.map (·.name)).Nodup)
+    (hwf : ∀ o ∈ ops ++ touch, o.WF) (ht : ∀ o ∈ touch, o ≠ .fire)
+    (hproper : ∀ r ∈ rules, ∀ ty d, ty ≠ r.ty → r.node.eval ty d = false) :
+    let e1 := (({ rules := rules } : Engine).run ops).reset
+    let e0 := e1.run touch
+    (∀ f ∈ e0.wm.getAllFacts, e1.wm.nextId ≤ f.handle ∨ ∃ d, Op.update f.handle d ∈ touch) →
+    e0.ag.acts.length + rules.length ≤ 1000 →
+    let fired := e0.fireAll.2.map (·.rule)
+    fired.Nodup ∧
+    ∀ r ∈ rules, (r.name ∈ fired ↔ ∃ f ∈ e0.wm.getAllFacts, r.node.eval f.ty f.data = true) := by
+  intro e1 e0 hfresh hbound fired
+  have hQ := quiet_of hq
+  have he1 : e1 = ({ rules := rules } : Engine).run (ops ++ [.reset]) := by rw [run_append]; rfl
+  have hwf' : ∀ o ∈ (ops ++ [.reset]) ++ touch, o.WF := by
+    intro o ho
+    rcases List.mem_append.1 ho with h | h
+    · rcases List.mem_append.1 h with h | h
+      · exact hwf o (List.mem_append.2 (Or.inl h))
+      · simp only [List.mem_singleton] at h; subst h; exact trivial
+    · exact hwf o (List.mem_append.2 (Or.inr h))
+  have hinv1 : Inv rules e1 := by
+    rw [he1]; exact inv_run hQ _ _ (fun o ho => hwf' o (List.mem_append.2 (Or.inl ho))) (inv_init rules)
+  have hnil : e0.ag.fired = [] :=
+    fired_run_nil hQ touch e1 (fun o ho => ⟨ht o ho, hwf o (List.mem_append.2 (Or.inr ho))⟩) hinv1 rfl
+  have main := quiescent_fire_all_exact rules (ops ++ [.reset]) touch hq hn hwf' ht
+  simp only [← he1] at main
+  obtain ⟨m1, _, m3, m4, _, _⟩ := main hfresh hbound
+  refine ⟨m1, ?_⟩
+  intro r hr
+  constructor
+  · intro hf
+    obtain ⟨x, hx, hxr⟩ := List.mem_map.1 hf
+    obtain ⟨r', hr', f, hfl, h1, _, _, h4⟩ := m4 x hx
+    have : r' = r := by
+      have h5 := find_rule_of_mem rules r' hn hr'
+      have h6 := find_rule_of_mem rules r hn hr
+      rw [← h1, hxr] at h5
+      rw [h6] at h5
+      simpa using h5.symm
+    subst this
+    exact ⟨f, hfl, h4⟩
+  · rintro ⟨f, hfl, hev⟩
+    apply m3 r hr (by rw [hnil]; simp)
+    refine ⟨f, hfl, ?_, hev⟩
+    by_cases hty : f.ty = r.ty
+    · exact hty
+    · rw [hproper r hr f.ty f.data hty] at hev; simp at hev
+
+/-- the exactness clause for the loop run with bound `B` WITHOUT the size hypothesis (`fire_all` is `B = 1000`) -/
+def quiescent_fire_all_exact_no_size_hypothesis (B : Nat) : Prop :=
+  ∀ (rules : List Rule) (ops touch : List Op),
+    quietRules rules = true → (rules.map (·.name)).Nodup → (∀ o ∈ ops ++ touch, o.WF) → (∀ o ∈ touch, o ≠ .fire) →
+    let e1 := ({ rules := rules } : Engine).run ops
+    let e0 := e1.run touch
+    (∀ f ∈ e0.wm.getAllFacts, e1.wm.nextId ≤ f.handle ∨ ∃ d, Op.update f.handle d ∈ touch) →
+    ∀ r ∈ rules, r.name ∉ e0.ag.fired →
+      (∃ f ∈ e0.wm.getAllFacts, f.ty = r.ty ∧ r.node.eval f.ty f.data = true) → r.name ∈ (fireLoop B e0 []).2.map (·.rule)
+
+def adult : Rule := { name := 0, ty := 0, node := .alpha 0 0 .gt (.lit (.int 18)), prio := 0, noLoop := true }
+
+/-- `B + 1` activations of fact 1 (one insert, `B` updates), fact 1 retracted, a second adult inserted: the stale activations
+are older, so they are popped first and use up the iterations -/
+def staleHistory (B : Nat) : List Op :=
+  [.insert 0 [(0, .int 25)]] ++ List.replicate B (.update 1 [(0, .int 25)]) ++ [.retract 1, .insert 0 [(0, .int 30)]]
+
+/-- **the size hypothesis is needed**: with more stale pending activations than the iteration bound, the loop stops at the bound
+before it reaches the activation of the live fact, and the satisfied rule does not fire.  Kernel-evaluated for `B = 3`; the same
+history with `B = 1000` makes `fire_all` itself return `[]` (checked once with `decide +kernel`, 4.4 min — not part of the
+build). -/
+theorem quiescent_fire_all_exact_no_size_hypothesis_counterexample : ¬ quiescent_fire_all_exact_no_size_hypothesis 3 := by
+  intro h
+  have hfacts : ((({ rules := [adult] } : Engine).run []).run (staleHistory 3)).wm.getAllFacts =
+      [{ handle := 2, ty := 0, data := [(0, .int 30)] }] := by decide +kernel
+  have := h [adult] [] (staleHistory 3) (by decide) (by decide) (by decide) (by decide)
+    (by
+      intro f hf
+      rw [hfacts] at hf
+      simp only [List.mem_singleton] at hf
+      subst hf
+      exact Or.inl (by decide))
+    adult (by simp) (by decide +kernel) (by rw [hfacts]; exact ⟨_, List.mem_singleton.2 rfl, by decide⟩)
+  revert this
+  decide +kernel
 
 /-! Non-vacuity, and the defect in proof form. -/
-def adult : Rule := { name := 0, ty := 0, node := .alpha 0 0 .gt (.lit (.int 18)), prio := 0, noLoop := true }
 
 /-- F-C06's history on the model of the fixed code: insert age=25, update age=15, fire_all — nothing fires -/
 example : ((({ rules := [adult] } : Engine).run [.insert 0 [(0, .int 25)], .update 1 [(0, .int 15)]]).fireAll).2 = [] := by
@@ -121,5 +272,38 @@ example : ((({ rules := [adult] } : Engine).run [.insert 0 [(0, .int 25)]]).fire
 /-- a retracted fact does not fire; the next insert gets a new handle -/
 example : ((({ rules := [adult] } : Engine).run [.insert 0 [(0, .int 25)], .retract 1, .insert 0 [(0, .int 30)]]).fireAll).2.map (·.handle) = [2] := by
   decide +kernel
+
+/-! Non-vacuity of `quiescent_fire_all_exact` / `_iff`: a history with an earlier `fire_all`, a `reset`, an update that turns the
+fact from an adult into a minor, a fact of a type no rule depends on, and a fact that is retracted again.  It meets every
+hypothesis (4 pending activations, one of them stale); `fire_all` fires `minor` once and nothing else. -/
+def minor : Rule := { name := 1, ty := 0, node := .alpha 0 0 .le (.lit (.int 18)), prio := 0, noLoop := true }
+def exOps : List Op := [.insert 0 [(0, .int 25)], .fire]
+def exTouch : List Op := [.update 1 [(0, .int 15)], .insert 1 [(1, .bool true)], .insert 0 [(0, .int 30)], .retract 3]
+
+example :
+    let e1 := (({ rules := [adult, minor] } : Engine).run exOps).reset
+    let e0 := e1.run exTouch
+    quietRules [adult, minor] = true ∧ ([adult, minor].map (·.name)).Nodup ∧ (∀ o ∈ exOps ++ exTouch, o.WF) ∧
+    (∀ o ∈ exTouch, o ≠ .fire) ∧ (∀ r ∈ [adult, minor], ∀ ty d, ty ≠ r.ty → r.node.eval ty d = false) ∧
+    (∀ f ∈ e0.wm.getAllFacts, e1.wm.nextId ≤ f.handle ∨ ∃ d, Op.update f.handle d ∈ exTouch) ∧
+    e0.ag.acts.length = 4 ∧ e0.wm.getAllHandles = [1, 2] ∧
+    (({ rules := [adult, minor] } : Engine).run exOps).ag.fired = [0] ∧ e0.fireAll.2.map (·.rule) = [1] := by
+  intro e1 e0
+  have hfacts : e0.wm.getAllFacts = [{ handle := 1, ty := 0, data := [(0, .int 15)] }, { handle := 2, ty := 1, data := [(1, .bool true)] }] := by
+    decide +kernel
+  refine ⟨by decide, by decide, by decide, by decide, ?_, ?_, by decide +kernel, by decide +kernel, by decide +kernel, by decide +kernel⟩
+  · intro r hr ty d hty
+    simp only [List.mem_cons, List.not_mem_nil, or_false] at hr
+    rcases hr with rfl | rfl
+    · have : ¬ 0 = ty := fun h => hty (by simp [adult, ← h])
+      simp [adult, Node.eval, this]
+    · have : ¬ 0 = ty := fun h => hty (by simp [minor, ← h])
+      simp [minor, Node.eval, this]
+  · intro f hf
+    rw [hfacts] at hf
+    simp only [List.mem_cons, List.not_mem_nil, or_false] at hf
+    rcases hf with rfl | rfl
+    · exact Or.inr ⟨[(0, .int 15)], by simp [exTouch]⟩
+    · exact Or.inl (by decide +kernel)
 
 end C06
